@@ -25,7 +25,7 @@ MaxEdges == IF Tier = 0 THEN 2 ELSE 3
 NSM == <<"intermediary", "named">>
 
 (* the root file (extended inner names, as published) *)
-RootTree == Root(NSM, <<>>, MapOf({
+RootTree == Root(NSM, <<"about this version">>, MapOf({
     Class(<<"K", "x">>, <<>>, MapOf({Field(<<"f", "fx">>, "I", <<>>)})),
     Class(<<"K$I", "x$i">>, <<>>, <<>>),
     Class(<<"K$I$J", "x$i$j">>, <<>>, <<>>),
